@@ -34,12 +34,12 @@ ASSUMPTIONS = ["the network is fault-free in these scenarios: the fault under st
                "SHUTDOWN_TIMEOUT is 3 s"]
 EXPECTED_PROBES = ["awaiting_ack", "awaiting_separate_response", "mid_blockwise", "client_observation", "server_observation",
                    "backlog_queued", "handler_running", "empty_ack_timer_pending", "dedup_entries", "nothing_outstanding",
-                   "awaiting_tcp_response", "tokens_65536_later", "observation_cancelled_by_application"]
+                   "awaiting_tcp_response", "tokens_65536_later", "observation_cancelled_by_application", "request_received_on_multicast"]
 
 OTHER_IP = "fd00::3"
 ACTIVITIES = ["t_req_silent", "t_req_acked", "t_backlog", "t_get_big", "t_put_big", "t_observe", "s_req_slow",
               "s_observe", "s_req_fast", "o_req", "t_backlog_acked", "s_token_reuse", "t_req_tcp", "s_req_tcp", "t_req_cancel",
-              "t_many_tokens", "t_obs_cancel"]
+              "t_many_tokens", "t_obs_cancel", "s_req_mcast"]
 
 
 def gen(r, tier):
@@ -186,7 +186,7 @@ def run_world(scn, shutdown_at, seed):
             await tcp_listener.start()
             T = await aiocoap.Context.create_server_context(tsite, bind=(common.SERVER_IP, 5683),
                                                             transports=["udp6", "tcpclient", "tcpserver"],
-                                                            loggername="coap-target")
+                                                            loggername="coap-target", multicast=[("ff02::fd", "sim1")])
             sim.contexts.append(T)
             for ri in T.request_interfaces:
                 order_tcp_pools(ri)
@@ -330,6 +330,12 @@ def run_world(scn, shutdown_at, seed):
                 path = b"slow" if k == "s_req_slow" else b"fast"
                 sclient.send(taddr, msg={"type": rc.CON, "code": rc.GET, "mid": 0x5000 + n[0], "token": bytes([0x5C, n[0]]),
                                          "options": [(rc.URI_PATH, path), (rc.URI_QUERY, b"d=%r" % a["d"])], "payload": b""})
+            elif k == "s_req_mcast":
+                # a request that reaches the target on a multicast address ("All CoAP Nodes"): answered from its
+                # unicast address, non-confirmably -- whenever the library chooses to send that answer
+                sim.probe("request_received_on_multicast")
+                sclient.send(("ff02::fd", 5683), msg={"type": rc.NON, "code": rc.GET, "mid": 0x5900 + n[0], "token": bytes([0x5B, n[0]]),
+                                                      "options": [(rc.URI_PATH, b"fast"), (rc.URI_QUERY, b"d=%r" % a["d"])], "payload": b""})
             elif k == "s_token_reuse":
                 # two confirmable requests on one token (different message IDs) in quick succession, both to a slow
                 # handler: two empty-ACK timers are pending for one (remote, token)
